@@ -28,7 +28,7 @@ import (
 type Input struct {
 	Kind      string     `json:"kind"`
 	TokenFile *hx.B      `json:"token_file"`          // content the token file is given before the first start (nil: absent)
-	Reachable bool       `json:"reachable"`           // the pre-seeded state is one a kill during a first start can leave
+	Reachable bool       `json:"reachable"`           // the pre-seeded state is one a kill during a first start (before or after the WithToken repair) can leave
 	SeedKeys  []string   `json:"seed_keys,omitempty"` // namespaces given a pemkey without pemcert (kill between the two Sets)
 	Kill      []string   `json:"kill,omitempty"`      // services of a first start that is killed ...
 	KillMs    int        `json:"kill_ms,omitempty"`   // ... this long after it began
@@ -272,7 +272,8 @@ func generate(r *hx.Rand, tier string) []Input {
 	if big {
 		nruns = 3
 	}
-	// (1) every state of the token file a kill during the first write can leave
+	// (1) every state of the token file a kill during the first write could leave before WithToken
+	// wrote atomically (legacy data directories; first in the list: regression replay)
 	ntok := 1
 	if big {
 		ntok = 3
@@ -285,7 +286,7 @@ func generate(r *hx.Rand, tier string) []Input {
 		}
 		ins = append(ins, Input{Kind: "token-absent", Reachable: true, Runs: tokenOnly(nruns + 1)})
 		ins = append(ins, Input{Kind: "token-complete", TokenFile: bp(tok), Reachable: true, Runs: tokenOnly(nruns)})
-		// contents no start can have written (operator-edited): only stability is judged
+		// contents no start can have written (operator-edited): replaced like any malformed file
 		ins = append(ins, Input{Kind: "token-foreign", TokenFile: bp(tok + "\n"), Runs: tokenOnly(2)})
 		ins = append(ins, Input{Kind: "token-foreign", TokenFile: bp(tok[:19] + "w"), Runs: tokenOnly(2)})
 		ins = append(ins, Input{Kind: "token-foreign", TokenFile: bp(strings.ToUpper(tok[:10]) + tok[10:]), Runs: tokenOnly(2)})
